@@ -55,6 +55,8 @@ def fixed_cases(tier):
         n = len(vals)
         out.append({"spec": spec, "base": S.simple_config([]), "seed": 0,
                     "triples": [[a, b, ["l", "collect"]] for a in range(n) for b in range(n)]})
+    for spec in C.run_count_specs([16, 17, 64, 65, 128, 129, 255, 256, 257]):
+        out.append({"spec": spec, "base": S.simple_config([]), "seed": 0, "triples": [[0, 1, ["l"]]]})
     return out
 
 
